@@ -36,7 +36,7 @@ Notation V := Fixed.
 
 (* requests of a destination [p] only touch p's own keys *)
 Definition own_key (p : prefix) (k : option N * prefix) : Prop :=
-  k = (None, p) \/ (fst p = 1 /\ exists id, k = (Some id, (2, snd p))).
+  k = (None, p) \/ (is_vpn p = true /\ exists id, k = (Some id, local_pfx p)).
 Definition own_req (p : prefix) (r : req) : Prop :=
   match r with
   | Apply t q _ => own_key p (t, q)
@@ -62,16 +62,16 @@ Definition vrf_reqs (fl : flags) (p : prefix) (ch : change) (nh : list N) : list
                          | b :: _ => can_import (snd vr) (e_attr b)
                          | [] => false
                          end in
-       [Apply (Some (fst vr)) (2, snd p) (if importable then nh else [])]) (c_vrfs c).
+       [Apply (Some (fst vr)) (local_pfx p) (if importable then nh else [])]) (c_vrfs c).
 
 Lemma distribute_fixed fl p ch :
   distribute c V fl p ch =
   if negb (ch_bc ch || ch_ac ch) then [] else
   let nh := nhs_of (ecmp_code c fl (ch_cur ch)) in
-  Apply None p nh :: (if fst p =? 1 then vrf_reqs fl p ch nh else []).
+  Apply None p nh :: (if is_vpn p then vrf_reqs fl p ch nh else []).
 Proof. reflexivity. Qed.
 
-Lemma vrf_reqs_own fl p ch nh : fst p = 1 -> Forall (own_req p) (vrf_reqs fl p ch nh).
+Lemma vrf_reqs_own fl p ch nh : is_vpn p = true -> Forall (own_req p) (vrf_reqs fl p ch nh).
 Proof.
   intro Hp. unfold vrf_reqs. apply Forall_forall. intros r Hr.
   apply in_flat_map in Hr. destruct Hr as [vr [_ Hr]].
@@ -83,7 +83,7 @@ Lemma distribute_own fl p ch : Forall (own_req p) (distribute c V fl p ch).
 Proof.
   rewrite distribute_fixed. destruct (negb (ch_bc ch || ch_ac ch)); auto.
   cbn zeta. constructor. cbn. left; auto.
-  destruct (fst p =? 1) eqn:E; auto. apply vrf_reqs_own. lia.
+  destruct (is_vpn p) eqn:E; auto. apply vrf_reqs_own. auto.
 Qed.
 
 Lemma distribute_opt_own fl p ch : Forall (own_req p) (distribute_opt c V fl p ch).
@@ -115,7 +115,7 @@ Lemma chg_ok_main fl fl' p d d' ch :
 Proof.
   destruct ch as [x|]; cbn [chg_ok distribute_opt fold_left].
   - intros [H1 H2]. rewrite distribute_fixed, H2. cbn [negb fold_left fib_step].
-    rewrite fkey_eqb_refl. destruct (fst p =? 1); cbn [fold_left]; rewrite ?vrf_reqs_main;
+    rewrite fkey_eqb_refl. destruct (is_vpn p); cbn [fold_left]; rewrite ?vrf_reqs_main;
       unfold code_nhs; rewrite H1; auto.
   - intros [H1 H2]. unfold code_nhs. rewrite H1. rewrite (ecmp_code_ext c fl fl'); auto.
 Qed.
@@ -131,8 +131,8 @@ Definition code_vrf (fl : flags) (imp : list N) (d : dest) : list N :=
 (* the FIB keys a destination is responsible for, with the value the code keeps there *)
 Definition tracked (p : prefix) (k : option N * prefix) (valf : flags -> dest -> list N) : Prop :=
   (k = (None, p) /\ valf = code_nhs) \/
-  (fst p = 1 /\ NoDup (map fst (c_vrfs c)) /\
-   exists id imp, In (id, imp) (c_vrfs c) /\ id <> 0 /\ k = (Some id, (2, snd p)) /\
+  (is_vpn p = true /\ NoDup (map fst (c_vrfs c)) /\
+   exists id imp, In (id, imp) (c_vrfs c) /\ id <> 0 /\ k = (Some id, local_pfx p) /\
                   valf = fun fl d => code_vrf fl imp d).
 
 Lemma tracked_own p k valf : tracked p k valf -> own_key p k.
@@ -140,16 +140,27 @@ Proof.
   intros [[-> _]|[Hp [_ [id [imp [_ [_ [-> _]]]]]]]]; [left; auto | right; split; auto; eexists; eauto].
 Qed.
 
-Lemma tracked_inj p q k valf : tracked p k valf -> own_key q k -> q = p.
+(* no other VPN prefix seen so far maps to the same VRF-local prefix (another RD) *)
+Definition uniq (p : prefix) (ks : list prefix) : Prop :=
+  forall q, In q ks -> is_vpn q = true -> local_pfx q = local_pfx p -> q = p.
+Definition kcond (p : prefix) (k : option N * prefix) (ks : list prefix) : Prop :=
+  k = (None, p) \/ uniq p ks.
+
+Lemma tracked_inj p q k valf : tracked p k valf -> own_key q k ->
+  (k = (None, p) \/ (is_vpn q = true -> local_pfx q = local_pfx p -> q = p)) -> q = p.
 Proof.
-  intros [[-> _]|[Hp [_ [id [imp [_ [_ [-> _]]]]]]]] [H|[Hq [id' H]]]; inversion H; subst; auto.
-  destruct p, q; cbn [fst snd] in *. subst. auto.
+  intros HT HO HC. destruct HO as [HO|[Hq [id' HO]]].
+  - destruct HT as [[-> _]|[Hp [_ [id [imp [_ [_ [-> _]]]]]]]]; inversion HO; auto.
+  - destruct HT as [[-> _]|[Hp [_ [id [imp [_ [_ [-> _]]]]]]]]; [discriminate|].
+    destruct HC as [HC|HC]; [discriminate|]. apply HC; auto.
+    assert (HL : forall a b : prefix, (Some id, a) = (Some id', b) -> b = a) by (intros a b HH; inversion HH; auto).
+    apply HL. exact HO.
 Qed.
 
 Lemma vrf_fold_absent (F : N * list N -> list N) l id i cur :
   ~ In id (map fst l) ->
-  fold_left (fib_step (Some id, (2, i)))
-    (flat_map (fun vr : N * list N => if fst vr =? 0 then [] else [Apply (Some (fst vr)) (2, i) (F vr)]) l) cur = cur.
+  fold_left (fib_step (Some id, i))
+    (flat_map (fun vr : N * list N => if fst vr =? 0 then [] else [Apply (Some (fst vr)) i (F vr)]) l) cur = cur.
 Proof.
   revert cur. induction l as [|vr l IH]; cbn [flat_map map In fold_left]; auto.
   intros cur Hn. rewrite fold_fib_app, IH by tauto.
@@ -160,8 +171,8 @@ Qed.
 
 Lemma vrf_fold_present (F : N * list N -> list N) l id imp i cur :
   NoDup (map fst l) -> In (id, imp) l -> id <> 0 ->
-  fold_left (fib_step (Some id, (2, i)))
-    (flat_map (fun vr : N * list N => if fst vr =? 0 then [] else [Apply (Some (fst vr)) (2, i) (F vr)]) l) cur
+  fold_left (fib_step (Some id, i))
+    (flat_map (fun vr : N * list N => if fst vr =? 0 then [] else [Apply (Some (fst vr)) i (F vr)]) l) cur
   = F (id, imp).
 Proof.
   revert cur. induction l as [|vr l IH]; cbn [flat_map map In fold_left]; try tauto.
@@ -179,13 +190,13 @@ Proof.
   - apply chg_ok_main; auto.
   - destruct ch as [x|]; cbn [chg_ok distribute_opt fold_left] in *.
     + destruct HC as [H1 H2]. rewrite distribute_fixed, H2. cbn [negb fold_left fib_step].
-      assert (fkey_eqb (None, p) (Some id, (2, snd p)) = false) as -> by reflexivity.
-      assert (fst p =? 1 = true) as -> by lia.
+      assert (fkey_eqb (None, p) (Some id, local_pfx p) = false) as -> by reflexivity.
+      rewrite Hp.
       unfold vrf_reqs.
       rewrite (vrf_fold_present
                  (fun vr => if match ch_cur x with b :: _ => can_import (snd vr) (e_attr b) | [] => false end
                             then nhs_of (ecmp_code c fl' (ch_cur x)) else [])
-                 (c_vrfs c) id imp (snd p)); auto.
+                 (c_vrfs c) id imp (local_pfx p)); auto.
       cbn [snd]. unfold code_vrf, code_nhs. rewrite H1. destruct (eligs (d_l d')); auto.
     + destruct HC as [H1 H2]. unfold code_vrf, code_nhs. rewrite H1.
       destruct (eligs (d_l d)) eqn:E; auto. destruct (can_import imp (e_attr e)); auto.
@@ -501,25 +512,29 @@ Record Inv' (ks : list prefix) (g : prefix -> dest) (fl : flags) (reqs : list re
   inv_sorted : forall p, ssorted c fl (d_l (g p));
   inv_nodup : NoDup ks;
   inv_keys : forall p, ~ In p ks -> d_l (g p) = [];
-  inv_main : forall p k valf, tracked p k valf -> fib_replay reqs k = valf fl (g p)
+  inv_main : forall p k valf, tracked p k valf -> kcond p k ks -> fib_replay reqs k = valf fl (g p)
 }.
 Definition Inv (s : st) (reqs : list req) : Prop := Inv' (s_keys s) (s_get s) (s_fl s) reqs.
 
 Lemma fold_flat_map_main (g : prefix -> list req) p k valf ks cur :
-  tracked p k valf ->
+  tracked p k valf -> kcond p k ks ->
   NoDup ks -> (forall q, Forall (own_req q) (g q)) ->
   fold_left (fib_step k) (flat_map g ks) cur =
   if existsb (pfx_eqb p) ks then fold_left (fib_step k) (g p) cur else cur.
 Proof.
-  intros HT ND HO. revert cur. induction ks as [|q t IH]; cbn [flat_map existsb]; auto.
+  intros HT HK0 ND HO. revert cur. induction ks as [|q t IH]; cbn [flat_map existsb]; auto.
   intro cur. inversion ND; subst. rewrite fold_fib_app.
+  assert (HKt : kcond p k t).
+  { destruct HK0 as [HK0|HK0]; [left; auto|right]. intros x Hx. apply HK0. cbn; auto. }
   destruct (pfx_eqb p q) eqn:E; cbn [orb].
   - apply pfx_eqb_eq in E. subst q. rewrite IH by auto.
     assert (existsb (pfx_eqb p) t = false) as ->; auto.
     apply not_true_iff_false. intro HE. apply existsb_exists in HE. destruct HE as [x [Hx HE]].
     apply pfx_eqb_eq in HE. subst. auto.
   - rewrite (fold_fib_foreign k q (g q)); auto.
-    intro HK. apply (tracked_inj p q k valf HT) in HK. subst. rewrite pfx_eqb_refl in E. discriminate.
+    intro HK. apply (tracked_inj p q k valf HT) in HK.
+    + subst. rewrite pfx_eqb_refl in E. discriminate.
+    + destruct HK0 as [HK0|HK0]; [left; auto|right]. intros; apply HK0; cbn; auto.
 Qed.
 
 Lemma valf_empty p k valf fl d : tracked p k valf -> d_l d = [] -> valf fl d = [].
@@ -540,7 +555,7 @@ Proof.
   constructor; auto.
   - intro p. apply (ds_sorted _ _ _ _ _ (HD p)). auto.
   - intros p Hp. apply HE. auto.
-  - intros p k valf HT. unfold fib_replay. rewrite fold_fib_app. fold (fib_replay reqs k). rewrite (I4 p k valf HT).
+  - intros p k valf HT HK. unfold fib_replay. rewrite fold_fib_app. fold (fib_replay reqs k). rewrite (I4 p k valf HT HK).
     rewrite (fold_flat_map_main (fun q => snd (f q (s_get s q))) p k valf (s_keys s)); auto.
     2:{ intro q. apply (ds_own _ _ _ _ _ (HD q)). }
     destruct (existsb (pfx_eqb p) (s_keys s)) eqn:E.
@@ -571,20 +586,26 @@ Lemma upd_inv ks g fl reqs p0 d' rq ks' :
   Inv' ks g fl reqs ->
   dstep_ok fl fl p0 (g p0) (d', rq) ->
   NoDup ks' -> (forall x, In x ks -> In x ks') ->
-  (~ In p0 ks' -> d_l d' = []) ->
+  (~ In p0 ks' -> d_l d' = []) -> (In p0 ks' \/ rq = []) ->
   Inv' ks' (upd p0 d' g) fl (reqs ++ rq).
 Proof.
-  intros [I1 I2 I3 I4] [D1 D2 D3] HN HS HE. cbn [fst snd] in *.
+  intros [I1 I2 I3 I4] [D1 D2 D3] HN HS HE HM. cbn [fst snd] in *.
   constructor; auto.
   - intro p. unfold upd. destruct (pfx_eqb p p0) eqn:E; auto.
   - intros p Hp. unfold upd. destruct (pfx_eqb p p0) eqn:E.
     + apply pfx_eqb_eq in E. subst. auto.
     + apply I3. auto.
-  - intros p k valf HT. unfold fib_replay. rewrite fold_fib_app. fold (fib_replay reqs k). rewrite (I4 p k valf HT).
+  - intros p k valf HT HK.
+    assert (HK' : kcond p k ks).
+    { destruct HK as [HK|HK]; [left; auto|right]. intros x Hx. apply HK. auto. }
+    unfold fib_replay. rewrite fold_fib_app. fold (fib_replay reqs k). rewrite (I4 p k valf HT HK').
     unfold upd. destruct (pfx_eqb p p0) eqn:E.
     + apply pfx_eqb_eq in E. subst. auto.
-    + apply (fold_fib_foreign k p0); auto.
-      intro HK. apply (tracked_inj p p0 k valf HT) in HK. subst. rewrite pfx_eqb_refl in E. discriminate.
+    + destruct HM as [HM| ->]; [|reflexivity].
+      apply (fold_fib_foreign k p0); auto.
+      intro HO. apply (tracked_inj p p0 k valf HT) in HO.
+      * subst. rewrite pfx_eqb_refl in E. discriminate.
+      * destruct HK as [HK|HK]; [left; auto|right]. apply HK. auto.
 Qed.
 
 
@@ -802,10 +823,12 @@ Proof.
     + apply add_key_nodup; auto.
     + intros x Hx. apply add_key_in. auto.
     + intro Hn. exfalso. apply Hn. apply add_key_in. auto.
+    + left. apply add_key_in. auto.
   - (* Remove *)
     pose proof (do_remove_ok (s_fl s) (s_get s p) peer pid) as HO.
     pose proof (do_remove_sorted (s_fl s) (s_get s p) peer pid) as HS.
-    assert (HE : d_l (s_get s p) = [] -> d_l (fst (fst (do_remove (s_get s p) peer pid))) = []).
+    assert (HE : d_l (s_get s p) = [] -> d_l (fst (fst (do_remove (s_get s p) peer pid))) = [] /\
+                 snd (fst (do_remove (s_get s p) peer pid)) = None /\ snd (do_remove (s_get s p) peer pid) = None).
     { intro HH. unfold do_remove. rewrite HH. cbn. auto. }
     destruct (do_remove (s_get s p) peer pid) as [[d' ch] r].
     cbn [fst snd] in *. unfold Inv. cbn [s_keys s_get s_fl].
@@ -814,6 +837,14 @@ Proof.
     + constructor; auto.
     + apply (dstep_of_chg (s_fl s) (s_fl s) p (s_get s p) d' ch []); auto. constructor.
       destruct r; [|constructor]. destruct (peer =? 0); [constructor|apply nht_only_unreg].
+    + intro Hn. apply HE. apply I3. auto.
+    + assert (HIn : In p (s_keys s) \/ ~ In p (s_keys s)).
+      { destruct (existsb (pfx_eqb p) (s_keys s)) eqn:E.
+        - left. apply existsb_exists in E. destruct E as [x [Hx E]]. apply pfx_eqb_eq in E. subst; auto.
+        - right. intro Hc. assert (existsb (pfx_eqb p) (s_keys s) = true); try congruence.
+          apply existsb_exists. exists p. split; auto. apply pfx_eqb_refl. }
+      destruct HIn as [HIn|HIn]; [left; auto|right].
+      destruct (HE (I3 p HIn)) as [_ [-> ->]]. reflexivity.
   - apply Inv_purge; auto.
   - (* MarkStale *)
     apply sweep_inv; auto.
@@ -872,7 +903,8 @@ Theorem C20_fib_replay_eq_ecmp_of_best : forall (ops : list op) (p : prefix),
   fib_replay reqs (None, p) = fib_spec c (s_fl s) (d_l (s_get s p)).
 Proof.
   intros ops p. cbn zeta. pose proof (run_inv ops st0 [] Inv0) as H. cbn [app] in H.
-  destruct H as [I1 I2 I3 I4]. rewrite (I4 p (None, p) code_nhs) by (left; auto). unfold code_nhs, fib_spec.
+  destruct H as [I1 I2 I3 I4].
+  rewrite (I4 p (None, p) code_nhs (or_introl (conj eq_refl eq_refl)) (or_introl eq_refl)). unfold code_nhs, fib_spec.
   change (selectable (d_l (s_get (fst (run c V st0 ops)) p))) with (eligs (d_l (s_get (fst (run c V st0 ops)) p))).
   rewrite ecmp_code_spec; auto. apply ssorted_filter. auto.
 Qed.
@@ -880,23 +912,36 @@ Qed.
 
 (* C20 (1), VRF tables: for a VPN prefix, every VRF with a kernel table holds the
    same next-hop list when its import targets match the best path, nothing otherwise;
-   the best path used is a best path of the Spec (rank-first selectable path) *)
-Theorem C20_vrf_fib_replay_eq_ecmp_of_best : forall (ops : list op) (i id : N) (imp : list N),
+   the best path used is a best path of the Spec (rank-first selectable path).
+   Outside the known class C20-3: no other VPN prefix (another route distinguisher)
+   with the same VRF-local prefix has been seen. *)
+Definition Known_C20_3 (p : prefix) (ks : list prefix) : Prop := ~ uniq p ks.
+
+Theorem C20_vrf_fib_replay_eq_ecmp_of_best_outside_known :
+  forall (ops : list op) (p : prefix) (id : N) (imp : list N),
+  is_vpn p = true ->
   NoDup (map fst (c_vrfs c)) -> In (id, imp) (c_vrfs c) -> id <> 0 ->
   let s := fst (run c Fixed st0 ops) in
   let reqs := snd (run c Fixed st0 ops) in
-  let l := d_l (s_get s (1, i)) in
-  fib_replay reqs (Some id, (2, i)) = vrf_spec c (s_fl s) imp l (hd_error (selectable l)) /\
+  let l := d_l (s_get s p) in
+  ~ Known_C20_3 p (s_keys s) ->
+  fib_replay reqs (Some id, local_pfx p) = vrf_spec c (s_fl s) imp l (hd_error (selectable l)) /\
   (forall b, hd_error (selectable l) = Some b -> is_best c (s_fl s) l b).
 Proof.
-  intros ops i id imp ND HI Hid. cbn zeta. pose proof (run_inv ops st0 [] Inv0) as H. cbn [app] in H.
+  intros ops p id imp Hv ND HI Hid. cbn zeta. intro HK.
+  assert (HU : uniq p (s_keys (fst (run c V st0 ops)))).
+  { intros q Hq Hvq HL. destruct (pfx_eqb q p) eqn:E.
+    - apply pfx_eqb_eq; auto.
+    - exfalso. apply HK. intro HU. specialize (HU q Hq Hvq HL). subst. rewrite pfx_eqb_refl in E. discriminate. }
+  pose proof (run_inv ops st0 [] Inv0) as H. cbn [app] in H.
   destruct H as [I1 I2 I3 I4]. split.
-  - rewrite (I4 (1, i) (Some id, (2, i)) (fun fl d => code_vrf fl imp d)).
-    2:{ right. cbn [fst snd]. split; auto. split; auto. exists id, imp. auto. }
+  - rewrite (I4 p (Some id, local_pfx p) (fun fl d => code_vrf fl imp d)).
+    2:{ right. split; auto. split; auto. exists id, imp. auto. }
+    2:{ right. auto. }
     unfold code_vrf, vrf_spec, fib_spec, code_nhs.
-    change (selectable (d_l (s_get (fst (run c V st0 ops)) (1, i))))
-      with (eligs (d_l (s_get (fst (run c V st0 ops)) (1, i)))).
-    destruct (eligs (d_l (s_get (fst (run c V st0 ops)) (1, i)))) as [|b t] eqn:E; auto.
+    change (selectable (d_l (s_get (fst (run c V st0 ops)) p)))
+      with (eligs (d_l (s_get (fst (run c V st0 ops)) p))).
+    destruct (eligs (d_l (s_get (fst (run c V st0 ops)) p))) as [|b t] eqn:E; auto.
     cbn [hd_error]. destruct (can_import imp (e_attr b)); auto.
     rewrite <- E. rewrite ecmp_code_spec; auto. apply ssorted_filter. auto.
   - intros b Hb. apply head_is_best; auto.
@@ -1130,7 +1175,7 @@ Lemma distribute_opt_apply_only fl p ch : apply_only (distribute_opt c V fl p ch
 Proof.
   destruct ch as [x|]; cbn; [|constructor]. rewrite distribute_fixed.
   destruct (negb _); [constructor|]. cbn zeta. constructor; auto.
-  destruct (fst p =? 1); [|constructor]. unfold vrf_reqs. apply Forall_forall. intros r Hr.
+  destruct (is_vpn p); [|constructor]. unfold vrf_reqs. apply Forall_forall. intros r Hr.
   apply in_flat_map in Hr. destruct Hr as [vr [_ Hr]]. destruct (fst vr =? 0); cbn in Hr; try tauto.
   destruct Hr as [<-|[]]. exact I.
 Qed.
@@ -1604,7 +1649,7 @@ Proof. reflexivity. Qed.
    statements; replayed on the unfixed code through the harness these were the
    findings C20-1 and C20-2 (corpus/C20/).  And non-vacuity examples. *)
 Definition ex_attr (pref : N) (rts : list N) : attr :=
-  {| a_pref := pref; a_llgrc := false; a_nollgr := false; a_rts := rts |}.
+  {| a_pref := pref; a_llgrc := false; a_nollgr := false; a_rts := rts; a_clen := 0; a_oid := None |}.
 Definition ex_cfg : cfg :=
   {| c_peers := [(1, (1, false)); (2, (2, false)); (3, (3, false))];
      c_attrs := [(0, ex_attr 1 [1]); (1, ex_attr 0 [2]); (2, ex_attr 1 [1])];
@@ -1654,6 +1699,44 @@ Example ex_vrf_fixed :
   fib_replay (snd (run ex_cfg Fixed st0 ex_ops_vrf)) (Some 6, (2, 1)) = [2] /\
   vrf_spec ex_cfg (s_fl s) [2] l (hd_error (selectable l)) = [2].
 Proof. vm_compute. auto. Qed.
+
+(* C20-3 (open): the VRF table is keyed by the prefix with the route distinguisher
+   stripped, so two VPN prefixes that differ only in the RD share one VRF entry;
+   withdrawing one of them empties the entry although the other is still importable *)
+Definition ex_ops_rd : list op :=
+  [Insert 1 0 (1, 1) 0 (Some (NhV4 1)) 0; Insert 2 0 (1, 11) 0 (Some (NhV4 2)) 0; Remove 2 0 (1, 11) 0].
+
+Lemma C20_vrf_fib_replay_eq_ecmp_of_best_refuted :
+  exists (c : cfg) (ops : list op) (p : prefix) (id : N) (imp : list N),
+    is_vpn p = true /\ NoDup (map fst (c_vrfs c)) /\ In (id, imp) (c_vrfs c) /\ id <> 0 /\
+    let s := fst (run c Fixed st0 ops) in
+    let l := d_l (s_get s p) in
+    Known_C20_3 p (s_keys s) /\
+    fib_replay (snd (run c Fixed st0 ops)) (Some id, local_pfx p) <>
+    vrf_spec c (s_fl s) imp l (hd_error (selectable l)).
+Proof.
+  exists ex_cfg, ex_ops_rd, (1, 1), 5, [1]. split; [reflexivity|]. split; [|split; [|split; [|split]]].
+  - cbn. repeat constructor; cbn; intuition discriminate.
+  - cbn. auto.
+  - discriminate.
+  - intro HU. specialize (HU (1, 11)). cbn in HU.
+    assert (HH : (1, 11) = (1, 1)) by (apply HU; auto). discriminate HH.
+  - vm_compute. discriminate.
+Qed.
+
+Example ex_rd_values :
+  let s := fst (run ex_cfg Fixed st0 ex_ops_rd) in
+  fib_replay (snd (run ex_cfg Fixed st0 ex_ops_rd)) (Some 5, (2, 1)) = [] /\
+  vrf_spec ex_cfg (s_fl s) [1] (d_l (s_get s (1, 1))) (hd_error (selectable (d_l (s_get s (1, 1))))) = [1].
+Proof. vm_compute. auto. Qed.
+
+Example ex_uniq_nonvacuous :
+  ~ Known_C20_3 (1, 1) (s_keys (fst (run ex_cfg Fixed st0 ex_ops_vrf))) /\
+  ~ Known_C20_3 (4, 2) [(4, 2); (1, 2); (3, 2); (4, 3)].
+Proof.
+  split; intro H; apply H; intros q Hq Hv HL; cbn in Hq;
+    repeat (destruct Hq as [<-|Hq]; [try reflexivity; try discriminate Hv; try discriminate HL|]); try tauto.
+Qed.
 
 (* non-vacuity of the hypotheses and of the interesting branches *)
 Definition ex_ops_long : list op :=
